@@ -49,6 +49,9 @@ def gen_cases(tier, seed, scale=1):
         lines.append("incver %d %d %d" % (rnd.randrange(MAXID + 1), v, rnd.choice(bs)))
         lines.append("incsub %d %d %d" % (rnd.randrange(MAXID + 1), rnd.choice(bv), v))
         lines.append("forget %d %d %d" % (rnd.randrange(MAXID + 1), rnd.choice(bv), v))
+    for _ in range(300 * scale):
+        i0, v0 = rnd.randrange(0, 2 ** 16), rnd.choice(bv)
+        lines.append("same %d %d %d %d %d %d" % (i0, v0, rnd.choice(bs), i0 + 65536 * rnd.randrange(1, 65535), v0, rnd.choice(bs)))
     for _ in range(2000 * scale):
         a = (rnd.choice(bi), rnd.choice(bv), rnd.choice(bs))
         b = rnd.choice([a, (a[0], a[1], rnd.choice(bs)), (rnd.choice(bi), rnd.choice(bv), rnd.choice(bs)),
@@ -112,6 +115,11 @@ class Monitor:
             elif w[0] == "unpack":
                 if int(o[1]) != int(w[1]):
                     return "key %s decodes to %s which encodes back to %s" % (w[1], o[0], o[1])
+            elif w[0] == "same":
+                a, b = tuple(int(x) for x in w[1:4]), tuple(int(x) for x in w[4:7])
+                want = a[0] == b[0] and a[1] == b[1]
+                if (out.strip() == "true") != want:
+                    return "same_source_as(%s, %s) = %s: tokens %s the same slot and generation" % (a, b, out, "of" if want else "not of")
             elif w[0] == "incver":
                 t = tuple(int(x) for x in w[1:4])
                 got = tuple(int(x) for x in out.split("."))
